@@ -402,8 +402,8 @@ theorem nextCancelLoop_frameA (fuel : Nat) (s : St) : FrameA s (nextCancelLoop f
 @[simp] theorem nextCancelLoop_readFused (fuel : Nat) (s : St) : ((nextCancelLoop fuel s).1).readFused = s.readFused := (nextCancelLoop_frameA fuel s).readFused
 @[simp] theorem nextCancelLoop_tObs (fuel : Nat) (s : St) : ((nextCancelLoop fuel s).1).obs.filter isT = s.obs.filter isT := (nextCancelLoop_frameA fuel s).tobs
 
-theorem rearmWith_frameA (s : St) (id t : Nat) (r : DelayQ × DelayQ.InsertRes × Bool) :
-    FrameA s (rearmWith s id t r).st := by
+theorem rearmWith_frameA (s : St) (id t due : Nat) (r : DelayQ × DelayQ.InsertRes × Bool) :
+    FrameA s (rearmWith s id t due r).st := by
   unfold rearmWith; split
   · exact .trans (by frameA_rfl) (emit_frameA _ _ rfl)
   · show FrameA s (if _ then _ else _)
@@ -415,7 +415,7 @@ theorem expireWith_frameA (s : St) (now : Nat) (r : DelayQ × DelayQ.PollRes) : 
   unfold expireWith; split
   · split
     · split
-      · exact rearmWith_frameA _ _ _ _
+      · exact rearmWith_frameA _ _ _ _ _
       · exact .trans (by frameA_rfl) (osSend_frameA _ _ _)
     · frameA_rfl
   · frameA_rfl
@@ -1581,8 +1581,8 @@ theorem pollWriteCancel_frameD (s : St) : FrameD s (pollWriteCancel s).1 := by
 theorem pollWriteCancel_pq_le (s : St) : ((pollWriteCancel s).1).pq.length ≤ s.pq.length := (pollWriteCancel_frameD s).pq
 theorem pollWriteCancel_cq_le (s : St) : ((pollWriteCancel s).1).cq.length ≤ s.cq.length := (pollWriteCancel_frameD s).cq
 
-theorem rearmWith_frameD (s : St) (id t : Nat) (r : DelayQ × DelayQ.InsertRes × Bool) :
-    FrameD s (rearmWith s id t r).st := by
+theorem rearmWith_frameD (s : St) (id t due : Nat) (r : DelayQ × DelayQ.InsertRes × Bool) :
+    FrameD s (rearmWith s id t due r).st := by
   unfold rearmWith; split
   · exact .trans (by frameD_rfl) (emit_frameD _ _)
   · show FrameD s (if _ then _ else _)
@@ -1594,7 +1594,7 @@ theorem expireWith_frameD (s : St) (now : Nat) (r : DelayQ × DelayQ.PollRes) : 
   unfold expireWith; split
   · split
     · split
-      · exact rearmWith_frameD _ _ _ _
+      · exact rearmWith_frameD _ _ _ _ _
       · exact .trans (by frameD_rfl) (osSend_frameD _ _ _)
     · frameD_rfl
   · frameD_rfl
